@@ -234,6 +234,11 @@ def _run_diffusion(ctx, d):
                 if rng.random() < 0.125:
                     pref = real_t(0.0)  # inviscid: the step must leave the field as it is, whatever the flux buffer holds
                     ctx.rec.count("steps_with_exactly_zero_step_size")
+                elif rng.random() < 0.15:
+                    # tiny but non-zero (low viscosity, small dt on a coarse grid): the increment is small against the field, not against
+                    # its rounding unit in float64; "close to zero" is not zero
+                    pref = real_t(10.0 ** rng.uniform(-13, -8))
+                    ctx.rec.count("steps_with_tiny_nonzero_step_size")
                 meta = {"family": f"diffusion{d}d", "variant": variant, "dtype": ctx.sh["dtype"], "shape": shape, "field": fk, "prefactor": float(pref)}
 
                 def args(g):
@@ -286,6 +291,9 @@ def _run_advection(ctx, d):
                 if rng.random() < 0.125:
                     dtdx = real_t(0.0)
                     ctx.rec.count("steps_with_exactly_zero_step_size")
+                elif rng.random() < 0.15:
+                    dtdx = real_t(10.0 ** rng.uniform(-13, -8) / amp)
+                    ctx.rec.count("steps_with_tiny_nonzero_step_size")
                 meta = {"family": f"advection{d}d", "variant": variant, "dtype": ctx.sh["dtype"], "shape": shape, "field": fk, "velocity": vk,
                         "vel_amp": amp, "dt_by_dx": float(dtdx)}
                 v0 = vel.copy()
